@@ -124,29 +124,23 @@ theorem cmMid_no_sampled {lastN : Nat} {c : ReqContent} {hs : List VH} {l f g : 
   simp [hg, hgl, hf, addU64, hl, hns, hpos, hne]
   rfl
 
-/-- **the shape check accepts an answer without sampled headers**: reorg headers `rs` (below the
-start, ending at `start - 1`, `lastN` of them or beginning at block 1) followed by exactly `lastN`
-headers above the start that end at the parent of the last header and pass `checkNoSampled` -/
-theorem checkMatched_no_sampled {lastN : Nat} {c : ReqContent} {rs : List VH} {a : VH} {t : List VH}
-    {l g : VH} (hsorted : checkMatched.sorted (rs ++ a :: t) = true)
+/-- on a sorted response whose reorg headers `rs` (below the start, ending at `start - 1`, `lastN`
+of them or beginning at block 1) are followed by a header at or above the start, `checkMatched`
+is `cmMid` at `rs.length` -/
+theorem checkMatched_of_cmMid {lastN : Nat} {c : ReqContent} {rs : List VH} {a : VH} {t : List VH}
+    {l : VH} {res : Except Nat (Nat × Nat × Nat)}
+    (hsorted : checkMatched.sorted (rs ++ a :: t) = true)
     (hrs : ∀ x ∈ rs, x.number < c.startNumber)
     (hreorg : rs ≠ [] → (rs.length = lastN ∨ rs.head?.map (·.number) = some 1) ∧
       rs.getLast?.map (·.number) = some (c.startNumber - 1))
-    (hstart : c.startNumber < a.number) (hlen : (a :: t).length = lastN)
-    (hg : (a :: t).getLast? = some g) (hgl : g.number + 1 = l.number) (hl : l.number ≤ U64_MAX)
-    (hns : checkNoSampled lastN c a l.number lastN = none) :
-    checkMatched lastN c (rs ++ a :: t) l = .ok (.ok (rs.length, 0, lastN)) := by
+    (hstart : c.startNumber ≤ a.number)
+    (hmid : cmMid lastN c (rs ++ a :: t) l rs.length = .ok res) :
+    checkMatched lastN c (rs ++ a :: t) l = .ok res := by
   have htw : ((rs ++ a :: t).takeWhile (fun h => decide (h.number < c.startNumber))).length
       = rs.length := by
     rw [List.takeWhile_append_of_pos (by simpa using hrs)]
     have : ¬ a.number < c.startNumber := by omega
     simp [this]
-  have hmid : cmMid lastN c (rs ++ a :: t) l rs.length = .ok (.ok (rs.length, 0, lastN)) := by
-    refine cmMid_no_sampled (f := a) (g := g) ?_ ?_ ?_ ?_ hgl hl hns
-    · simp only [List.length_append]; omega
-    · simp only [List.length_cons] at hlen; omega
-    · simp
-    · rw [List.getLast?_append, hg]; rfl
   have hemp : (rs ++ a :: t).isEmpty = false := by simp
   have hhead : rs ≠ [] → (rs ++ a :: t).head? = rs.head? := by
     intro h; cases rs with
@@ -180,6 +174,99 @@ theorem checkMatched_no_sampled {lastN : Nat} {c : ReqContent} {rs : List VH} {a
           exact hmid
         · simp [hr0, h3, h1, h2']
           exact hmid
+
+/-- **the shape check accepts an answer without sampled headers**: reorg headers `rs` (below the
+start, ending at `start - 1`, `lastN` of them or beginning at block 1) followed by exactly `lastN`
+headers above the start that end at the parent of the last header and pass `checkNoSampled` -/
+theorem checkMatched_no_sampled {lastN : Nat} {c : ReqContent} {rs : List VH} {a : VH} {t : List VH}
+    {l g : VH} (hsorted : checkMatched.sorted (rs ++ a :: t) = true)
+    (hrs : ∀ x ∈ rs, x.number < c.startNumber)
+    (hreorg : rs ≠ [] → (rs.length = lastN ∨ rs.head?.map (·.number) = some 1) ∧
+      rs.getLast?.map (·.number) = some (c.startNumber - 1))
+    (hstart : c.startNumber < a.number) (hlen : (a :: t).length = lastN)
+    (hg : (a :: t).getLast? = some g) (hgl : g.number + 1 = l.number) (hl : l.number ≤ U64_MAX)
+    (hns : checkNoSampled lastN c a l.number lastN = none) :
+    checkMatched lastN c (rs ++ a :: t) l = .ok (.ok (rs.length, 0, lastN)) := by
+  refine checkMatched_of_cmMid hsorted hrs hreorg (Nat.le_of_lt hstart) ?_
+  refine cmMid_no_sampled (f := a) (g := g) ?_ ?_ ?_ ?_ hgl hl hns
+  · simp only [List.length_append]; omega
+  · simp only [List.length_cons] at hlen; omega
+  · simp
+  · rw [List.getLast?_append, hg]; rfl
+
+/-! ### the response shape without sampled headers, last-N section longer than last-N -/
+
+/-- the count of the headers below the boundary stops at the first header that reaches it -/
+theorem countBefore_append_stop (c : ReqContent) : ∀ (rs : List VH) (a : VH) (t : List VH) (atd : Nat),
+    (∀ x ∈ rs, ∃ xtd, x.td = .ok xtd ∧ xtd < c.boundary) → a.td = .ok atd → c.boundary ≤ atd →
+    checkMatched.countBefore c (rs ++ a :: t) = .ok rs.length
+  | [], a, t, atd, _, ha, hb => by
+    simp only [List.nil_append, List.length_nil]
+    unfold checkMatched.countBefore
+    simp only [M.bind_eq_ok]
+    have : ¬ atd < c.boundary := by omega
+    exact ⟨atd, ha, by simp [this]⟩
+  | r :: rs, a, t, atd, hrs, ha, hb => by
+    obtain ⟨rtd, hrtd, hlt⟩ := hrs r (List.mem_cons_self ..)
+    have ih := countBefore_append_stop c rs a t atd
+      (fun x hx => hrs x (List.mem_cons_of_mem _ hx)) ha hb
+    simp only [List.cons_append, List.length_cons]
+    unfold checkMatched.countBefore
+    simp only [M.bind_eq_ok]
+    exact ⟨rtd, hrtd, by simp [hlt, ih]; rfl⟩
+
+/-- after the reorg-section checks: more than `lastN` last headers from position `reorg`, the
+first of them being the first header of the response that reaches the boundary, ending at the
+parent of the last header, pass when `checkNoSampled` accepts the first one -/
+theorem cmMid_no_sampled_long {lastN : Nat} {c : ReqContent} {hs : List VH} {l f g : VH}
+    {reorg ln : Nat} (hlen : hs.length = reorg + ln) (hlong : lastN < ln)
+    (hcb : checkMatched.countBefore c hs = .ok reorg)
+    (hf : hs[reorg]? = some f) (hg : hs.getLast? = some g) (hgl : g.number + 1 = l.number)
+    (hl : l.number ≤ U64_MAX)
+    (hns : checkNoSampled lastN c f l.number ln = none) :
+    cmMid lastN c hs l reorg = .ok (.ok (reorg, 0, ln)) := by
+  have hshape : cmShape lastN c hs reorg = .ok (.ok (0, ln)) := by
+    unfold cmShape
+    have h1 : hs.length - reorg > lastN := by omega
+    have h2 : hs.length - reorg = ln := by omega
+    simp only [h1, if_true, M.bind_eq_ok]
+    refine ⟨reorg, hcb, ?_⟩
+    simp only [Nat.lt_irrefl, if_false, h2, hlong, if_true, M.bind_eq_ok, subU64_eq_ok,
+      M.pure_eq_ok]
+    exact ⟨0, ⟨Nat.le_refl _, by omega⟩, rfl⟩
+  have htail : cmTail lastN c hs l reorg 0 ln = .ok (.ok (reorg, 0, ln)) := by
+    unfold cmTail
+    have hne : ln ≠ 0 := by omega
+    have hpos : 0 < ln := by omega
+    simp [hg, hgl, hf, addU64, hl, hns, hpos, hne]
+    rfl
+  unfold cmMid
+  simp only [hshape, M.bind_eq_ok]
+  exact ⟨_, rfl, htail⟩
+
+/-- **the shape check accepts an answer without sampled headers whose last-N section is longer
+than last-N**: reorg headers `rs` (below the start, ending at `start - 1`, `lastN` of them or
+beginning at block 1; none of them reaches the boundary) followed by more than `lastN` headers
+above the start, the first of which reaches the boundary, that end at the parent of the last
+header and pass `checkNoSampled` -/
+theorem checkMatched_no_sampled_long {lastN : Nat} {c : ReqContent} {rs : List VH} {a : VH}
+    {t : List VH} {l g : VH} {atd : Nat} (hsorted : checkMatched.sorted (rs ++ a :: t) = true)
+    (hrs : ∀ x ∈ rs, x.number < c.startNumber)
+    (hreorg : rs ≠ [] → (rs.length = lastN ∨ rs.head?.map (·.number) = some 1) ∧
+      rs.getLast?.map (·.number) = some (c.startNumber - 1))
+    (hrtd : ∀ x ∈ rs, ∃ xtd, x.td = .ok xtd ∧ xtd < c.boundary)
+    (hatd : a.td = .ok atd) (hab : c.boundary ≤ atd)
+    (hstart : c.startNumber < a.number) (hlen : lastN < (a :: t).length)
+    (hg : (a :: t).getLast? = some g) (hgl : g.number + 1 = l.number) (hl : l.number ≤ U64_MAX)
+    (hns : checkNoSampled lastN c a l.number (a :: t).length = none) :
+    checkMatched lastN c (rs ++ a :: t) l = .ok (.ok (rs.length, 0, (a :: t).length)) := by
+  refine checkMatched_of_cmMid hsorted hrs hreorg (Nat.le_of_lt hstart) ?_
+  refine cmMid_no_sampled_long (f := a) (g := g) ?_ hlen
+    (countBefore_append_stop c rs a t atd hrtd hatd hab) ?_ ?_ hgl hl hns
+  · simp only [List.length_append]
+  · simp
+  · rw [List.getLast?_append, hg]; rfl
+
 /-- the number of the last header of a run that starts at block `n` -/
 theorem Linked.number_last : ∀ {hs : List VH} {l : VH} {n : Nat},
     hs.head?.map (·.number) = some n → Linked (hs ++ [l]) → l.number = n + hs.length
